@@ -1439,6 +1439,25 @@ class _Normalizer:
                     blk.remove(st)
                     if not blk:
                         blk.append(ast.Pass())
+        # ``if A and (x := E) <op> ..: B else: C`` -> ``if A: if (x := E) <op> ..: B else: C  else: C``: the assignment expression
+        # becomes the first thing its own test evaluates (C is duplicated: only for short else branches)
+        changed = True
+        while changed:
+            changed = False
+            for blk in _blocks(fnode):
+                for i, st in enumerate(blk):
+                    if isinstance(st, ast.If) and isinstance(st.test, ast.BoolOp) and isinstance(st.test.op, ast.And) \
+                            and any(isinstance(y, ast.NamedExpr) for v_ in st.test.values[1:] for y in ast.walk(v_)) \
+                            and not any(isinstance(y, ast.NamedExpr) for y in ast.walk(st.test.values[0])) \
+                            and sum(1 for b in st.orelse for _y in ast.walk(b)) <= 60:
+                        rest = st.test.values[1:]
+                        inner_test = rest[0] if len(rest) == 1 else ast.BoolOp(op=ast.And(), values=rest)
+                        inner = ast.If(test=inner_test, body=st.body, orelse=copy.deepcopy(st.orelse))
+                        ast.copy_location(inner, st)
+                        st.test = st.test.values[0]
+                        st.body = [inner]
+                        changed = True
+                        me.stats['short_circuit_forms'] = me.stats.get('short_circuit_forms', 0) + 1
         # walrus at the front of an if test
         for blk in _blocks(fnode):
             i = 0
